@@ -13,7 +13,11 @@
 //	            (sn ID v)                   *types.Sensitive
 //	            (a ID v*)                   *types.Array
 //	            (h ID (k v)*)               *types.Hash
+//	            (o ID xTYPE xDISP (xATTR v)*)   instance of an object type of the catalogue (Verif::Pair/Box/Unit); the
+//	                                        attributes are the entries of its init hash, in order
+//	            (tdef ID xTEXT xDISP)       an object type definition that no loader knows (implementation only)
 //	            (= ID)
+//	          leaf kind td = a named type the loader knows (alias Verif::Ints, object types of the catalogue)
 //	    Out:  <event tree> | <deserialized value, ids renumbered by first occurrence>     (or `| err`)
 //	            events: (u) (b t) (i N) (f BITS) (s xHEX) (x xHEX) (r N) (a e*) (h e*)
 //
@@ -59,14 +63,15 @@ type node struct {
 	s    string // s: text; x: bytes; l: enc
 	disp string // l
 	lk   string // l: leaf kind
-	kids []*node // sn: 1; a: elements; h: k v k v …
+	kids []*node // sn: 1; a: elements; h: k v k v …; o: attribute values
+	names []string // o: attribute names
 }
 
 type badOp struct{ msg string }
 
 func bad(format string, a ...interface{}) { panic(badOp{fmt.Sprintf(format, a...)}) }
 
-var leafKinds = []string{"rx", "sv", "svr", "ts", "tm", "uri", "ty"}
+var leafKinds = []string{"rx", "sv", "svr", "ts", "tm", "uri", "ty", "td"}
 
 func isLeafKind(k string) bool {
 	for _, x := range leafKinds {
@@ -178,6 +183,27 @@ func parse(e sx.Sexp, defined map[int64]*node, open map[int64]bool) *node {
 		delete(open, n.id)
 		defined[n.id] = n
 		return n
+	case "o":
+		if len(a) < 3 {
+			bad("arity of %s", e)
+		}
+		n := &node{kind: "o", id: id(), s: str(a[1]), disp: str(a[2])}
+		open[n.id] = true
+		for _, kv := range a[3:] {
+			if !kv.IsList || len(kv.List) != 2 {
+				bad("bad attribute")
+			}
+			n.names = append(n.names, str(kv.List[0]))
+			n.kids = append(n.kids, parse(kv.List[1], defined, open))
+		}
+		delete(open, n.id)
+		defined[n.id] = n
+		return n
+	case "tdef":
+		need(3)
+		n := &node{kind: "tdef", id: id(), s: str(a[1]), disp: str(a[2])}
+		defined[n.id] = n
+		return n
 	case "=":
 		need(1)
 		r, err := a[0].AsInt()
@@ -237,6 +263,25 @@ func (b *builder) build(n *node) px.Value {
 			es = append(es, types.WrapHashEntry(b.build(n.kids[i]), b.build(n.kids[i+1])))
 		}
 		v = types.WrapHash(es)
+	case "o":
+		t, ok := b.c.ParseType(n.s).(px.ObjectType)
+		if !ok {
+			bad("not an object type: %s", n.s)
+		}
+		attrs := t.AttributesInfo().Attributes()
+		if len(n.kids) > len(attrs) {
+			bad("too many attributes")
+		}
+		args := make([]px.Value, len(n.kids))
+		for i, k := range n.kids {
+			if attrs[i].Name() != n.names[i] {
+				bad("attribute %s out of order", n.names[i])
+			}
+			args[i] = b.build(k)
+		}
+		v = px.New(b.c, t, args...)
+	case "tdef":
+		v = b.c.ParseType(n.s)
 	default:
 		bad("cannot build %s", n.kind)
 	}
@@ -265,7 +310,7 @@ func (b *builder) leaf(kind, enc string) px.Value {
 		return types.ParseTimestamp(enc, types.DefaultTimestampFormats, "")
 	case "uri":
 		return types.WrapURI2(enc)
-	case "ty":
+	case "ty", "td":
 		if t, ok := b.types[enc]; ok {
 			return t
 		}
@@ -478,6 +523,7 @@ type facts struct {
 	shared     bool // some identified object or de-dupable string occurs twice
 	nonStrKey  bool
 	containers int
+	implOnly   bool // holds something the model does not cover
 }
 
 func classify(n *node, f *facts, seen map[*node]bool, strs map[string]int) {
@@ -491,7 +537,13 @@ func classify(n *node, f *facts, seen map[*node]bool, strs map[string]int) {
 			f.shared = true
 		}
 	}
-	if n.id >= 0 && (n.kind == "x" || n.kind == "l" || n.kind == "sn" || n.kind == "a" || n.kind == "h") {
+	if n.kind == "tdef" {
+		f.implOnly = true
+	}
+	if n.kind == "o" || n.kind == "tdef" {
+		f.isData = false
+	}
+	if n.id >= 0 && (n.kind == "x" || n.kind == "l" || n.kind == "sn" || n.kind == "a" || n.kind == "h" || n.kind == "o" || n.kind == "tdef") {
 		if seen[n] {
 			f.shared = true
 			return
@@ -618,6 +670,12 @@ func (p *printer) print(v px.Value) {
 		leaf("uri", true, encOf(t))
 	case px.Type:
 		leaf("ty", false, t.String())
+	case px.PuppetObject:
+		if labelled("o") {
+			w(" " + sx.Str(t.PType().Name()).Atom)
+			t.InitHash().EachPair(func(k, e px.Value) { w(" (" + sx.Str(k.String()).Atom + " "); p.print(e); w(")") })
+			w(")")
+		}
 	default:
 		w("(? " + sx.Str(fmt.Sprintf("%T", v)).Atom + ")")
 	}
@@ -645,6 +703,17 @@ func normalize(v px.Value) px.Value {
 		es := make([]*types.HashEntry, 0, t.Len())
 		t.EachPair(func(k, e px.Value) { es = append(es, types.WrapHashEntry(normalize(k), normalize(e))) })
 		return types.WrapHash(es)
+	case px.Type:
+		return v
+	case px.PuppetObject:
+		if ot, ok := t.PType().(px.ObjectType); ok {
+			attrs := ot.AttributesInfo().Attributes()
+			args := make([]px.Value, len(attrs))
+			for i, a := range attrs {
+				args[i] = normalize(a.Get(t))
+			}
+			return px.New(px.CurrentContext(), ot, args...)
+		}
 	}
 	return v
 }
@@ -656,6 +725,25 @@ type nullLogger struct{}
 func (nullLogger) Log(level px.LogLevel, args ...px.Value)                     {}
 func (nullLogger) Logf(level px.LogLevel, format string, args ...interface{}) {}
 func (nullLogger) LogIssue(i issue.Reported)                                  {}
+
+// the object types and the alias every op may use (added once to the worker's loader)
+var catalogue = []string{
+	`Object[{name => 'Verif::Pair', attributes => {a => Any, b => Any}}]`,
+	`Object[{name => 'Verif::Box', attributes => {v => {type => Any, value => undef}}}]`,
+	`Object[{name => 'Verif::Unit'}]`,
+}
+
+func ensureCatalogue(c px.Context) {
+	if _, ok := px.Load(c, px.NewTypedName(px.NsType, "Verif::Pair")); ok {
+		return
+	}
+	ts := []px.Type{}
+	for _, t := range catalogue {
+		ts = append(ts, c.ParseType(t))
+	}
+	ts = append(ts, types.NewTypeAliasType("Verif::Ints", nil, c.ParseType("Array[Integer]")))
+	px.AddTypes(c, ts...)
+}
 
 func safely(f func()) (err interface{}) {
 	defer func() {
@@ -726,7 +814,9 @@ func exec(c px.Context, op string, args []sx.Sexp) (res core.Result) {
 	if op != "ser" || len(args) != 3 {
 		return core.Result{Out: "bad-op", Pred: "FAIL harness-bad-op " + op}
 	}
-	quiet := pcore.WithParent(context.Background(), c.Loader(), nullLogger{}, c.ImplementationRegistry())
+	ensureCatalogue(c)
+	// a fresh defining loader per op: type definitions that arrive in a stream are registered there and nowhere else
+	quiet := pcore.WithParent(context.Background(), px.NewParentedLoader(c.Loader()), nullLogger{}, c.ImplementationRegistry())
 	px.DoWithContext(quiet, func(ctx px.Context) { res = ser(ctx, parseOpts(args[0]), parseCaps(args[1]), args[2]) })
 	return res
 }
@@ -766,6 +856,11 @@ func ser(c px.Context, o opts, cp caps, vs sx.Sexp) core.Result {
 	}
 	// the abstract payloads the model works with must be what the real codecs print
 	for n, lv := range bld.memo {
+		if n.kind == "o" {
+			if d := lv.String(); d != n.disp {
+				return fail("leaf-codec", "leaf-codec", fmt.Sprintf("object prints %q (expected %q)", d, n.disp))
+			}
+		}
 		if n.kind == "l" {
 			enc, disp := "", ""
 			if err := safely(func() {
@@ -797,6 +892,15 @@ func ser(c px.Context, o opts, cp caps, vs sx.Sexp) core.Result {
 	tags = append(tags, "ev:"+stream.kind)
 	if strings.Contains(evs, "(r ") {
 		tags = append(tags, "has-ref")
+	}
+
+	// the reference-free stream (local_reference=false), taken BEFORE deserializing: the deserializer registers type
+	// definitions that arrive in the stream, after which the serializer would emit them by name
+	rec0 := newRecorder(cp.bin, cp.cplx, int(cp.thr))
+	if err := safely(func() {
+		serialization.NewSerializer(c, serOptions(opts{o.rich, false, 0})).Convert(v, rec0)
+	}); err != nil {
+		return fail("ser-panic", "ser-panic", fmt.Sprint(err))
 	}
 
 	// deserialize the recorded events with the real collector
@@ -841,14 +945,7 @@ func ser(c px.Context, o opts, cp caps, vs sx.Sexp) core.Result {
 	if !o.rich && !f.ptypeStr && hasKeyEv(stream, serialization.PcoreTypeKey) {
 		return fail(out, "rich-leak", "__ptype hash emitted with rich_data=false")
 	}
-	// every reference stands for an equal value: the stream with all references expanded is the stream the
-	// serializer emits with local_reference=false
-	rec0 := newRecorder(cp.bin, cp.cplx, int(cp.thr))
-	if err := safely(func() {
-		serialization.NewSerializer(c, serOptions(opts{o.rich, false, 0})).Convert(v, rec0)
-	}); err != nil {
-		return fail(out, "ser-panic", fmt.Sprint(err))
-	}
+	// every reference stands for an equal value: the stream with all references expanded is the reference-free stream
 	if x, y := expanded.String(), rec0.stack[0][0].String(); x != y {
 		return fail(out, "wrong-ref", "references expand to "+x+" but the reference-free stream is "+y)
 	}
@@ -918,6 +1015,8 @@ func kindName(v px.Value) string {
 		return "default"
 	case px.Type:
 		return "type"
+	case px.PuppetObject:
+		return "object"
 	case px.StringValue:
 		return "string"
 	}
